@@ -10,6 +10,7 @@ import SpsdkVerif.Model.Bimg
 import SpsdkVerif.Model.BimgSpec
 import SpsdkVerif.Proofs.Bimg
 import SpsdkVerif.Proofs.BimgAny
+import SpsdkVerif.Proofs.BimgSeq
 import SpsdkVerif.Proofs.BimgDelimit
 
 namespace SpsdkVerif.C14
@@ -324,6 +325,34 @@ theorem sb31_delimits (h : Sb31.Header) (wf : Sb31.Spec.HeaderWF h) (body : Byte
     parseSeg ext fcbSup s ((Sb31.encHeader h ++ body) ++ []) = .present (Sb31.encHeader h ++ body) :=
   Bimg.sb31_delimits' h wf body ext fcbSup s hp hsz hext
 
+/-! ## 7b. One object, many init-offset assignments: history independence -/
+
+/-- the setter recomputes the segments' `excluded` flags on BOTH of its paths (`offset == 0` and non-zero) - read from the
+    setter's source on every run; a path that skips `_update_segments()` makes this (and the theorems below) fail -/
+theorem setter_updates_on_every_path :
+    BimgTables.setterUpdatesOnZero = true ∧ BimgTables.setterUpdatesOnNonZero = true := by decide
+
+/-- after ANY sequence of init-offset assignments (by integer, by segment, refused ones included) on a fresh object the
+    `excluded` flags are exactly those of the current init offset: a function of (segment table, init offset) only -/
+theorem excluded_history_independent (segs : List Seg) (ops : List InitOp) :
+    (runOps segs (freshObj segs) ops).excl = segs.map (excluded (runOps segs (freshObj segs) ops).init) :=
+  Bimg.bimgS_run setter_updates_on_every_path.1 setter_updates_on_every_path.2 segs ops _ (Bimg.bimgS_fresh segs)
+
+/-- two histories that end at the same init offset leave the object in the same state - in particular X → 0 equals fresh -/
+theorem same_init_same_object (segs : List Seg) (ops₁ ops₂ : List InitOp)
+    (h : (runOps segs (freshObj segs) ops₁).init = (runOps segs (freshObj segs) ops₂).init) :
+    runOps segs (freshObj segs) ops₁ = runOps segs (freshObj segs) ops₂ := by
+  have h1 := excluded_history_independent segs ops₁
+  have h2 := excluded_history_independent segs ops₂
+  cases hs1 : runOps segs (freshObj segs) ops₁ with
+  | mk i1 e1 =>
+    cases hs2 : runOps segs (freshObj segs) ops₂ with
+    | mk i2 e2 =>
+      rw [hs1] at h h1; rw [hs2] at h h2
+      simp only at h h1 h2
+      subst h
+      rw [h1, h2]
+
 /-! ## 8. Non-vacuity: a concrete row, concrete payloads, a concrete `Ext` -/
 
 /-- toy container format for the examples: `A5 n …` is a container of `n` bytes -/
@@ -410,5 +439,9 @@ example : (match exportImg exDesc 32 exRaws with
         | .ok (i, ini, f) => decide (i = 0 ∧ ini = 0 ∧ f = [some (0, [0xA5, 5, 1, 2, 3]), some (8, [0xA5, 3, 8])])
         | .error _ => false)
     | .error _ => false) = true := by decide +kernel
+
+/-- one object: to the primary container and back to 0 is the fresh object again; a refused request changes nothing -/
+example : runOps exDesc.segs (freshObj exDesc.segs) [.byKind 12, .byInt 0] = ⟨0, [false, false, false, false]⟩ ∧
+    runOps exDesc.segs (freshObj exDesc.segs) [.byInt 9, .byInt 1, .byInt 99, .byKind 13] = ⟨8, [true, false, false, false]⟩ := by decide
 
 end SpsdkVerif.C14
